@@ -271,6 +271,7 @@ func (bf *buffer) Read(p []byte) (int, error) {
 			}
 
 			bf.cwait++
+			verifYield("Read.pre-wait", bf)
 			bf.ccond.Wait()
 		}
 		bf.ccond.L.Unlock()
@@ -328,6 +329,7 @@ func (bf *buffer) ReadPeek(n int) ([]byte, error) {
 		}
 
 		bf.cwait++
+		verifYield("ReadPeek.pre-wait", bf)
 		bf.ccond.Wait()
 	}
 	bf.ccond.L.Unlock()
@@ -391,6 +393,7 @@ func (bf *buffer) ReadWait(n int) ([]byte, error) {
 			return nil, io.EOF
 		}
 
+		verifYield("ReadWait.pre-wait", bf)
 		bf.ccond.Wait()
 	}
 	bf.ccond.L.Unlock()
@@ -547,6 +550,7 @@ func (bf *buffer) waitForWriteSpace(n int) (int64, int, error) {
 			}
 
 			bf.pwait++
+			verifYield("waitForWriteSpace.pre-wait", bf)
 			bf.pcond.Wait()
 		}
 
